@@ -147,12 +147,12 @@ impl Prop for C12 {
         "C12"
     }
     fn rule_text(&self) -> String {
-        "case = defseq table of 1-5 sequences of 1-4 items (plain keys, S-/C-/A- chorded keys and groups, O-(...) groups of 2-5 keys) over 8 letters, deliberately including prefix / duplicate / permutation conflicts, one marker key per sequence; sequence-timeout T in {5,20,100}; the three input modes, a second leader with (sequence T2 mode2), sequence-always-on. Static oracle: an accepted table has no expansion (every permutation of its O-groups) that is a prefix of an expansion of another sequence, recomputed independently from the generated structure. Dynamic oracle per segment (segments are separated by > T idle): leader + the whole sequence with press-to-press gaps < T => its marker pressed exactly once, no other marker, mode left; proper prefix + a key that is in no sequence => no marker, mode left; prefix + gap in {T-1,T,T+1,T+5} => continues iff gap < T; the real sequence state (active / inactive) is compared after every event; hidden modes press no typed key at the OS while the mode is active, hidden-delay-type types them as taps exactly when the sequence fails, visible-backspaced sends exactly one backspace per typed character on completion and none on failure. non-trivial = at least one marker fired; distinct = config x history hash.".into()
+        "case = defseq table of 1-5 sequences of 1-4 items (plain keys, S-/C-/A- chorded keys and groups, O-(...) groups of 2-5 keys) over 8 letters, deliberately including prefix / duplicate / permutation conflicts, one marker key per sequence; sequence-timeout T in {10,25,100}; the three input modes, a second leader with (sequence T2 mode2), sequence-always-on. Static oracle: an accepted table has no expansion (every permutation of its O-groups) that is a prefix of an expansion of another sequence, recomputed independently from the generated structure. Dynamic oracle per segment (segments are separated by > T idle): leader + the whole sequence with press-to-press gaps < T => its marker pressed exactly once, no other marker, mode left; proper prefix + a key that is in no sequence => no marker, mode left; prefix + gap in {T-1,T,T+1,T+5} => continues iff gap < T; the real sequence state (active / inactive) is compared after every event; hidden modes press no typed key at the OS while the mode is active, hidden-delay-type types them as taps exactly when the sequence fails, visible-backspaced sends exactly one backspace per typed character on completion and none on failure. non-trivial = at least one marker fired; distinct = config x history hash.".into()
     }
     fn runs(&self, tier: Tier) -> u64 {
         match tier {
-            Tier::Quick => 300_000,
-            Tier::Thorough => 15_000_000,
+            Tier::Quick => 60_000,
+            Tier::Thorough => 5_000_000,
         }
     }
     fn gen(&self, seed: u64, _tier: Tier) -> Case {
@@ -224,10 +224,12 @@ impl Prop for C12 {
             };
             seqs.push(s);
         }
-        let t = *r.pick(&[5u64, 20, 100]);
+        let t = *r.pick(&[10u64, 25, 100]);
         let mode = *r.pick(&["hidden-suppressed", "hidden-delay-type", "visible-backspaced"]);
-        let always_on = r.chance(150);
-        let t2 = *r.pick(&[8u64, 30]);
+        // (with hidden-suppressed an always-on sequence mode swallows every key that is not part of
+        // a sequence, including the keys its own virtual keys output: not a usable combination)
+        let always_on = mode != "hidden-suppressed" && r.chance(200);
+        let t2 = *r.pick(&[12u64, 30]);
         let mode2 = *r.pick(&["hidden-suppressed", "hidden-delay-type", "visible-backspaced"]);
         let mut cfg = format!("(defcfg process-unmapped-keys yes sequence-timeout {t} sequence-input-mode {mode}{})\n", if always_on { " sequence-always-on yes" } else { "" });
         cfg.push_str(&format!("(defsrc f1 f2)\n(deflayer base sldr (sequence {t2} {mode2}))\n"));
@@ -270,7 +272,7 @@ impl Prop for C12 {
                 ops.push(Op::Press(code(lk)));
                 ops.push(Op::Gap(r.range(1, 2) as u32));
                 ops.push(Op::Release(code(lk)));
-                ops.push(Op::Gap(r.range(1, (tt - 3).max(1).min(4)) as u32));
+                ops.push(Op::Gap(r.range(1, 3) as u32));
             }
             let kind = *r.pick(&["complete", "complete", "complete", "foreign", "timeout"]);
             // number of items typed before the special event
@@ -278,7 +280,8 @@ impl Prop for C12 {
                 "complete" => s.len(),
                 _ => r.range(0, s.len() as u64 - 1).min(s.len() as u64 - 1) as usize,
             };
-            let small = |r: &mut Rng| -> u32 { r.range(1, ((tt - 1) / 3).max(1).min(6)) as u32 };
+            // worst case between two presses: 3 small gaps + one 1 ms gap per release of an O-group (<= 5)
+            let small = |r: &mut Rng| -> u32 { r.range(1, ((tt - 1) / 5).max(1).min(6)) as u32 };
             let mut typed: Vec<String> = vec![];
             let mut end_at = usize::MAX;
             // type items [0, upto)
@@ -408,17 +411,24 @@ impl Prop for C12 {
         }
         // static oracle
         let exps: Vec<Vec<Vec<Tok>>> = table.seqs.iter().map(|s| expansions(s)).collect();
+        // two readings: tokens as the parser encodes them (an O-group key differs from the same key
+        // typed plainly, and the group is closed by a marker), and what is physically typed (a key
+        // is a key: the first key of an O-group cannot be told from a plain key when it is pressed)
+        let typed = |e: &Vec<Tok>| -> Vec<Tok> { e.iter().filter(|t| !t.0.is_empty()).map(|t| (t.0.clone(), t.1, false)).collect() };
         let mut conflict: Option<(usize, usize)> = None;
-        'outer: for i in 0..exps.len() {
+        let mut conflict_typed: Option<(usize, usize)> = None;
+        for i in 0..exps.len() {
             for j in 0..exps.len() {
                 if i == j {
                     continue;
                 }
                 for a in &exps[i] {
                     for b in &exps[j] {
-                        if is_prefix(a, b) {
+                        if conflict.is_none() && is_prefix(a, b) {
                             conflict = Some((i, j));
-                            break 'outer;
+                        }
+                        if conflict_typed.is_none() && is_prefix(&typed(a), &typed(b)) {
+                            conflict_typed = Some((i, j));
                         }
                     }
                 }
@@ -428,8 +438,9 @@ impl Prop for C12 {
         let mut st = match Stepper::new_filtered(&case.cfg, &case.files, Mode::Ticking) {
             Ok(s) => s,
             Err(_) => {
-                let mut o = RunOut::skip(if conflict.is_some() { "parser-rejected-conflicting-table" } else { "parser-rejected-other" });
-                o.count(if conflict.is_some() { "static.rejected-with-conflict" } else { "static.rejected-without-conflict" }, 1);
+                let c = conflict.is_some() || conflict_typed.is_some();
+                let mut o = RunOut::skip(if c { "parser-rejected-conflicting-table" } else { "parser-rejected-other" });
+                o.count(if c { "static.rejected-with-conflict" } else { "static.rejected-without-conflict" }, 1);
                 return o;
             }
         };
@@ -443,6 +454,33 @@ impl Prop for C12 {
             );
             return o;
         }
+        if let Some((i, j)) = conflict_typed {
+            o.set_fail(
+                "C12:ambiguous-table-accepted",
+                format!("typing v{i} ({}) is the beginning of typing v{j} ({}) in a permitted ordering of its O-groups (the keys of an O-group are typed like plain keys), but the parser accepted the table", table.seqs[i].iter().map(item_text).collect::<Vec<_>>().join(" "), table.seqs[j].iter().map(item_text).collect::<Vec<_>>().join(" ")),
+                vec!["conflict-only-between-overlap-group-and-plain-keys".into()],
+            );
+            return o;
+        }
+        // Sequences whose typing shares its beginning with another sequence that encodes those keys
+        // differently (overlapping vs plain): the matcher follows two hypotheses at most (known
+        // finding); failures of such sequences are tagged.
+        let strip = |e: &Vec<Tok>| -> Vec<Tok> { e.iter().filter(|t| !t.0.is_empty()).cloned().collect() };
+        let tricky: Vec<bool> = (0..exps.len())
+            .map(|i| {
+                (0..exps.len()).any(|j| {
+                    j != i
+                        && exps[i].iter().any(|a| {
+                            let a = strip(a);
+                            exps[j].iter().any(|b| {
+                                let b = strip(b);
+                                let k = a.iter().zip(b.iter()).take_while(|(x, y)| x.0 == y.0 && x.1 == y.1).count();
+                                (0..k).any(|n| a[n].2 != b[n].2)
+                            })
+                        })
+                })
+            })
+            .collect();
         // segments
         let segs: Vec<Seg> = case
             .param("segs")
@@ -516,25 +554,26 @@ impl Prop for C12 {
             let seg_outs = &outs[seg_first_out..seg_last_out];
             let markers: Vec<usize> = seg_outs.iter().filter(|e| e.kind == OutKind::Press).filter_map(|e| marker_idx(&e.key)).collect();
             let expect_marker = matches!(sg.kind.as_str(), "complete" | "timeout-alive");
+            let ftags: Vec<String> = if tricky.get(sg.seq).copied().unwrap_or(false) { vec!["typed-prefix-shared-with-differently-encoded-sequence".to_string()] } else { vec![] };
             let show = || format!("segment {:?} of v{} ({}) ops[{}..{}]: {} :: outputs {}", sg.kind, sg.seq, table.seqs[sg.seq].iter().map(item_text).collect::<Vec<_>>().join(" "), sg.from, sg.to, ops_short(&case.ops[sg.from..sg.to]), outs_short(seg_outs));
             if expect_marker {
                 if markers != vec![sg.seq] {
-                    o.set_fail("C12:sequence-did-not-fire-exactly-once", format!("expected marker {} exactly once, got markers {:?}; {}", MARKERS_OUT[sg.seq], markers, show()), vec![]);
+                    o.set_fail("C12:sequence-did-not-fire-exactly-once", format!("expected marker {} exactly once, got markers {:?}; {}", MARKERS_OUT[sg.seq], markers, show()), ftags.clone());
                     return o;
                 }
             } else if always_on && sg.kind == "timeout-dead" {
                 // a foreign key pressed after the timeout starts and immediately ends a new sequence
                 if !markers.is_empty() {
-                    o.set_fail("C12:marker-without-sequence", format!("markers {:?}; {}", markers, show()), vec![]);
+                    o.set_fail("C12:marker-without-sequence", format!("markers {:?}; {}", markers, show()), ftags.clone());
                     return o;
                 }
             } else if sg.kind == "foreign" && !markers.is_empty() {
-                o.set_fail("C12:marker-without-sequence", format!("markers {:?}; {}", markers, show()), vec![]);
+                o.set_fail("C12:marker-without-sequence", format!("markers {:?}; {}", markers, show()), ftags.clone());
                 return o;
             } else if sg.kind == "timeout-dead" && !always_on {
                 // the remainder typed in normal mode cannot fire anything
                 if !markers.is_empty() {
-                    o.set_fail("C12:sequence-fired-after-timeout", format!("markers {:?}; {}", markers, show()), vec![]);
+                    o.set_fail("C12:sequence-fired-after-timeout", format!("markers {:?}; {}", markers, show()), ftags.clone());
                     return o;
                 }
             }
@@ -542,7 +581,7 @@ impl Prop for C12 {
             if sg.leader_at != usize::MAX {
                 let a = after(sg.leader_at);
                 if !active_after[a] {
-                    o.set_fail("C12:leader-did-not-enter-sequence-mode", show(), vec![]);
+                    o.set_fail("C12:leader-did-not-enter-sequence-mode", show(), ftags.clone());
                     return o;
                 }
             }
@@ -553,14 +592,14 @@ impl Prop for C12 {
                 let end_of_seg_active = active_after[sg.to - 1];
                 let must_be_inactive_now = !(matches!(sg.kind.as_str(), "complete" | "timeout-alive") && matches!(table.seqs[sg.seq].last(), Some(Item::Overlap(_))));
                 if (must_be_inactive_now && still_active && !(always_on && sg.kind == "timeout-dead")) || end_of_seg_active {
-                    o.set_fail("C12:sequence-mode-not-left", format!("sequence mode still active after the terminating event; {}", show()), vec![]);
+                    o.set_fail("C12:sequence-mode-not-left", format!("sequence mode still active after the terminating event; {}", show()), ftags.clone());
                     return o;
                 }
                 // before the terminating event the mode was active (for the typed part)
                 if sg.kind != "timeout-dead" && sg.end_at > 0 && !sg.typed.is_empty() && sg.typed.len() > 1 {
                     let b = sg.end_at - 1;
                     if !active_after[b] && !(always_on) {
-                        o.set_fail("C12:sequence-mode-left-early", format!("sequence mode was already inactive before the terminating event; {}", show()), vec![]);
+                        o.set_fail("C12:sequence-mode-left-early", format!("sequence mode was already inactive before the terminating event; {}", show()), ftags.clone());
                         return o;
                     }
                 }
@@ -580,7 +619,7 @@ impl Prop for C12 {
                     let flush_ok = sg.mode == "hidden-delay-type" && sg.kind == "foreign";
                     let presses: Vec<&OutEv> = in_mode.iter().filter(|e| e.kind == OutKind::Press && marker_idx(&e.key).is_none()).collect();
                     if !flush_ok && !presses.is_empty() {
-                        o.set_fail("C12:hidden-mode-pressed-a-typed-key", format!("{} pressed at the OS while the sequence was in progress; {}", presses[0].key, show()), vec![]);
+                        o.set_fail("C12:hidden-mode-pressed-a-typed-key", format!("{} pressed at the OS while the sequence was in progress; {}", presses[0].key, show()), ftags.clone());
                         return o;
                     }
                     if flush_ok {
@@ -592,12 +631,12 @@ impl Prop for C12 {
                             case.ops[lo..=sg.end_at].iter().filter_map(|op| if let Op::Press(c) = op { Some(code_name(*c)) } else { None }).filter(|k| k != "F1" && k != "F2").collect()
                         };
                         if taps != want {
-                            o.set_fail("C12:hidden-delay-type-flush-differs", format!("failed sequence must type {:?} as taps, got {:?}; {}", want, taps, show()), vec![]);
+                            o.set_fail("C12:hidden-delay-type-flush-differs", format!("failed sequence must type {:?} as taps, got {:?}; {}", want, taps, show()), ftags.clone());
                             return o;
                         }
                     }
                     if bs != 0 {
-                        o.set_fail("C12:backspace-in-hidden-mode", show(), vec![]);
+                        o.set_fail("C12:backspace-in-hidden-mode", show(), ftags.clone());
                         return o;
                     }
                 }
@@ -605,7 +644,7 @@ impl Prop for C12 {
                     // visible-backspaced
                     let want_bs = if expect_marker { typed_keys.len() } else { 0 };
                     if bs != want_bs {
-                        o.set_fail("C12:visible-backspaced-count", format!("{} characters typed, {} backspaces sent (expected {}); {}", typed_keys.len(), bs, want_bs, show()), vec![]);
+                        o.set_fail("C12:visible-backspaced-count", format!("{} characters typed, {} backspaces sent (expected {}); {}", typed_keys.len(), bs, want_bs, show()), ftags.clone());
                         return o;
                     }
                 }
